@@ -42,6 +42,8 @@ type Store struct {
 	OnBegin  func(ops []Op)
 	// counters
 	NWrites  int
+	NApplied int // write operations that took effect (commits)
+	ClockFn  func() uint64
 	NIters   int
 	Clock    uint64
 	ErrOther error              // the definite error injected by FaultErr
@@ -123,6 +125,9 @@ func (s *Store) clone() []Ent {
 
 func (s *Store) GetTimestampOracle(ctx context.Context) (uint64, error) {
 	s.yield("tso")
+	if s.ClockFn != nil {
+		return s.ClockFn(), nil
+	}
 	s.Clock++
 	return s.Clock, nil
 }
@@ -308,6 +313,9 @@ func (b *batch) Commit(ctx context.Context) error {
 		}
 	default:
 		err = s.apply(b.ops)
+	}
+	if err == nil {
+		s.NApplied++
 	}
 	if s.OnCommit != nil {
 		s.OnCommit(b.ops, err)
